@@ -304,3 +304,12 @@ Proof.
     rewrite Nat.sub_0_r in H. exact H.
 Qed.
 Print Assumptions C06_splice.
+
+(* ---------- every edit of an ordered list (touching ranges included) passes the overlap filter ---------- *)
+Lemma accept_ordered_all : forall ds lo, ordered_from lo ds -> accept lo ds = ds.
+Proof.
+  induction ds as [|d r IH]; intros lo H; [reflexivity|].
+  cbn [ordered_from] in H. destruct H as (H1 & H2 & H3).
+  cbn [accept]. assert (E : Nat.ltb (ed_s d) lo = false) by (apply Nat.ltb_ge; exact H1).
+  rewrite E. f_equal. apply IH. exact H3.
+Qed.
